@@ -22,6 +22,7 @@ func TestC10(t *testing.T) {
 	cfg := rsGenCfg{Rules: rc, Vary: true}
 	check(t, 0, budget(6000, 80000), func(rt *rapid.T) {
 		c, rs := genRSCase(rt, cfg)
+		maybeFailingConditions(rt, c, rs)
 		c.TruthAll = true
 		rep, v := runValidated(rt, c, "C10")
 		nt := rep.RetractedTrueLater || (rep.Completed && rep.CompleteNotLast)
